@@ -104,21 +104,44 @@ impl<T> OffsetArc<T> {
     where
         T: Clone,
     {
+        // `Arc::make_mut` may replace the Arc, and it can unwind after having done so: releasing the
+        // previous allocation runs the payload's destructor if `Clone::clone` gave up the last other
+        // reference. Store the possibly-replaced Arc back whenever this method exits; we do this with a
+        // drop guard to handle the panicking case (as `ThinArc::with_arc_mut` does).
+        struct DropGuard<'a, T> {
+            transient: ManuallyDrop<Arc<T>>,
+            this: &'a mut OffsetArc<T>,
+        }
+
+        impl<'a, T> Drop for DropGuard<'a, T> {
+            fn drop(&mut self) {
+                // Store the possibly-mutated arc back inside, after converting
+                // it to a OffsetArc again. Release the ManuallyDrop.
+                // This does not modify the refcount or call drop on `this`
+                unsafe {
+                    ptr::write(
+                        self.this,
+                        Arc::into_raw_offset(ManuallyDrop::take(&mut self.transient)),
+                    );
+                }
+            }
+        }
+
         unsafe {
             // extract the OffsetArc as an owned variable. This does not modify
             // the refcount and we should be careful to not drop `this`
             let this = ptr::read(self);
             // treat it as a real Arc, but wrapped in a ManuallyDrop
             // in case `Arc::make_mut()` panics in the clone impl
-            let mut arc = ManuallyDrop::new(Arc::from_raw_offset(this));
+            let mut guard = DropGuard {
+                transient: ManuallyDrop::new(Arc::from_raw_offset(this)),
+                this: self,
+            };
             // obtain the mutable reference. Cast away the lifetime since
             // we have the right lifetime bounds in the parameters.
-            // This may mutate `arc`.
-            let ret = Arc::make_mut(&mut *arc) as *mut _;
-            // Store the possibly-mutated arc back inside, after converting
-            // it to a OffsetArc again. Release the ManuallyDrop.
-            // This also does not modify the refcount or call drop on self
-            ptr::write(self, Arc::into_raw_offset(ManuallyDrop::into_inner(arc)));
+            // This may mutate the transient Arc.
+            let ret = Arc::make_mut(&mut *guard.transient) as *mut _;
+            drop(guard);
             &mut *ret
         }
     }
